@@ -177,6 +177,15 @@ theorem arrayAssign_sound {st : St} {s s' : CState} (hI : Inv st) (lhs rhs : Nat
     show ¬ absSz st.sizes lhs = some (esz lhs)
     simp [absSz, h2]
 
+/-- `array_init` over the empty range `[0, -1]` initialises no cell -/
+theorem init_empty_range (v : Int) : Mem.init 4 0 (-1) v = Mem.empty := by
+  funext o
+  have : inCells 4 0 (-1) o = false := by
+    simp only [inCells]
+    have : ¬ ((o : Int) ≤ -1) := by omega
+    simp [this]
+  simp [Mem.init, Mem.storeRange, this]
+
 end SmashItv
 end Dom
 end Crab
